@@ -58,9 +58,39 @@ def template_params(facts, cls):
 
 
 def remainder_map(facts, cls, where):
-    """stored remainder -> set of results of compute() ('raise:<Exc>' for exceptions)."""
+    """remainder (value returned by the class's compute_remainder) -> set of results of compute().
+
+    Every compute_remainder in the class's MRO is wrapped: its result is case-split and logged, so each path of
+    compute() has one concrete remainder whatever the template does with it afterwards (attribute or local)."""
+    from ..values import VSet, Interval
     it = facts.interp(max_paths=5000)
     it.force_attr_split = True
+    prog = facts.program
+    wrapped = 0
+    for k in cls.mro(prog):
+        f = k.methods.get("compute_remainder")
+        if f is None:
+            continue
+        wrapped += 1
+
+        def make(orig):
+            def intr(it_, args, kwargs, node):
+                if it_._liftable(orig, args, kwargs):
+                    v = it_._lifted_call(orig, args, kwargs, node, None)
+                else:
+                    v = it_._inline(orig, args, kwargs, node, None)
+                if isinstance(v, VSet) and all(isinstance(x, int) for x in v.vals) and 1 < len(v.vals) <= 128:
+                    vals = sorted(v.vals)
+                    v = vals[it_.choose(len(vals), "remainder split")]
+                elif isinstance(v, Interval) and v.hi - v.lo < 128:
+                    v = v.lo + it_.choose(v.hi - v.lo + 1, "remainder split")
+                it_.event("remainder", value=v)
+                return v
+            return intr
+
+        it.intrinsics[f.qualname] = make(f)
+    if not wrapped:
+        raise AnalysisError(f"{cls.short}: no compute_remainder hook in the MRO (template changed shape)")
 
     def thunk():
         obj = it.instantiate(cls, [], {}, None)
@@ -77,9 +107,9 @@ def remainder_map(facts, cls, where):
             continue
         r = None
         for e in o.events:
-            if e["kind"] == "store_attr" and e["attr"] == "remainder" and not (e.get("func") or "").endswith("__init__"):
+            if e["kind"] == "remainder":
                 r = e["value"]
-        res = o.value if o.kind == "return" else o.value
+        res = o.value
         if r is None or is_abstract(r):
             other.append(o)
             continue
@@ -361,7 +391,8 @@ def _check_twin(ctx, rule, m, cls, ref, where):
     for combo in itertools.product("0123456789", repeat=min(n, 3)):
         digs = list(combo) + ["0"] * (n - len(combo))
         total = sum(int(d) * w for d, w in zip(digs, weights))
-        if total % ref["mod"] == 1:
+        if total % ref["mod"] == 1 and digs[0] != "0":
+            # digs[0] is the digit next to the check digit: non-zero, so the ordinary comparison (check digit 0) fails
             body = "".join(reversed(digs))  # left-to-right
             acc = ["0"] * 10
             for i, c in zip(range(ref["start"] - 1, ref["end"]), body):
